@@ -73,4 +73,89 @@ CLAIMS["C14"] = {
     "design_ref": "DESIGN.md section 6 C14",
 }
 
+
+BROKER_NOTE = ("Trusted: Lean kernel + axioms propext/Classical.choice/Quot.sound; tools/extract_broker.py (version gates, version-"
+               "dependent branches, low-water mark, work-queue order, accept range, counting order in create_channel are regenerated "
+               "from broker.rs / acceptor.rs / channel.rs on every run and fail closed); the broker correspondence harness (real "
+               "Broker::run, BrokerHandle::connect and Connection::run on a deterministic executor vs. the compiled model, all message "
+               "kinds, four ways of ending a connection, 1.14..1.20 peers). Modelled rather than verified: HashMap/HashSet as "
+               "association lists (hash iteration order compared after sorting runs of same-kind messages), v4 UUID cookies as a "
+               "counter (freshness of random UUIDs is assumed), the mpsc queues as the event order the broker sees, sends fail exactly "
+               "when the connection task is gone. The proofs are about the model function for function; statements over whole histories "
+               "are proved where DESIGN.md section 6 says so and are otherwise tied only by the correspondence runs (partial).")
+
+def _b(text, ref):
+    return {"text": text, "note": BROKER_NOTE, "design_ref": ref,
+            "technique": "Lean 4 theorems about an executable model of the broker state machine (per handler, per component, and "
+                         "inductive invariants over all event histories) + translator-extracted constants + differential "
+                         "correspondence with the real broker on a deterministic executor"}
+
+CLAIMS["C02"] = _b(
+    "Machine-checked proofs (Lean 4) of the decision logic of every step in a call's life, for every broker state: InvalidService for "
+    "a dead cookie (no_service); the owner's reply is forwarded once with the caller's serial and the owner's result and clears the "
+    "pending entry (owner_reply_forwarded), so duplicates are unknown and ignored (unknown_reply_ignored); non-owner replies are ignored "
+    "(foreign_reply_ignored); an abort marks the call and answers Aborted once (abort_answers_once, abort_twice_silent) and the later "
+    "reply is dropped (reply_after_abort_is_dropped). The exactly-once statement over whole interleavings with destroy/disconnect is "
+    "decided by the correspondence runs (overlapping calls, serial reuse, aborts, destruction, all four disconnect modes, mixed "
+    "versions): partial on the history-level clause.", "DESIGN.md section 6 C02")
+CLAIMS["C03"] = _b(
+    "Machine-checked proofs (Lean 4), for every broker state, that create/destroy object and create service answer ok / duplicate / "
+    "invalid-object / foreign-object exactly by registry state and ownership, register the entity under both keys for the sender, and "
+    "take cookies from a counter that is advanced on every issue (create_object_*, destroy_object_*, create_service_*); version "
+    "queries succeed exactly while the cookie is live (query_version_live). Uniqueness per uuid holds by construction (maps keyed by "
+    "uuid in code and model). Cascading destruction and cleanup on disconnect over histories are decided by the correspondence runs "
+    "over a pool of 4 uuids (collisions, re-creation, foreign access, disconnects): partial on those clauses.", "DESIGN.md section 6 C03")
+CLAIMS["C04"] = _b(
+    "Machine-checked proofs (Lean 4): emit_event's fan-out for every broker state is exactly one copy, payload unchanged, per connection "
+    "subscribed to the event id or to all events (fanout_exact), non-owner emits are dropped (foreign_emit_dropped); for ALL histories of "
+    "subscribe/unsubscribe on an event id the first/last flags that make the broker notify the owner are raised exactly when the "
+    "subscriber set changes between empty and non-empty, membership changes only for the acting connection and no empty entry is kept "
+    "(subscribe_transition, unsubscribe_transition, transitions_all_histories; likewise for all-events subscriptions). Agreement of the "
+    "per-connection mirror and ServiceDestroyed fan-out under disconnects is decided by the correspondence runs: partial there.",
+    "DESIGN.md section 6 C04")
+CLAIMS["C05"] = _b(
+    "Machine-checked proofs (Lean 4): an inductive invariant over ALL histories of broker events shows every stored channel has a "
+    "claimed end, sender credit <= receiver credit, and equal credits at or below the low-water mark (chan_inv_all_histories); credit "
+    "accounting for ALL histories of sends and grants: forwarded <= announced <= granted with the stored capacities being the unspent "
+    "parts and no panic site of channel.rs reached (credit_accounting, forwarded_le_granted); a sender within its credit is never "
+    "refused, one without credit gets CapacityExhausted (send_within_credit, send_beyond_credit); exactly one ItemReceived, payload "
+    "unchanged, in send order (send_delivers_once); a grant is refused exactly on u32 overflow (grant_overflow); claim-once and close "
+    "permission tables (claim_*_once, close_permission, close_no_panic). The broker's low-water constant is regenerated from channel.rs. "
+    "The client-side Sender/Receiver of the aldrin crate are not modelled (partial on that clause).", "DESIGN.md section 6 C05")
+CLAIMS["C09"] = _b(
+    "Machine-checked proof (Lean 4) of an inductive invariant over ALL histories of broker events, including every way and point of "
+    "ending a connection: the channel and bus-listener gauges equal the sizes of the maps, map keys are unique and below the cookie "
+    "counter (channel_listener_gauges_all_histories) — using the translator fact that create_channel counts before replying, which is "
+    "where the defect fixed in 2be3d48 breaks the proof; run-loop exit condition and shutdown events (finished_iff, "
+    "broker_shutdown_queues_all, idle_shutdown_sets_flag). Gauges for connections/objects/services and 'no residual state' are decided "
+    "by the correspondence runs: every scenario ends by closing everything (two orders), compares take_statistics with the model, the "
+    "model's gauges with its map sizes, and requires Broker::run to finish: partial on those clauses.", "DESIGN.md section 6 C09")
+CLAIMS["C10"] = _b(
+    "Machine-checked proofs (Lean 4): an inductive invariant over ALL histories shows every stored listener's cached flags equal their "
+    "recomputation from a duplicate-free filter set (listener_flags_all_histories, filter_history), hence the unreachable!() arms are dead "
+    "and the enumeration strategy depends on the filters alone (specific_*_choice); the specific path lists exactly the uuids/pairs a "
+    "matching entity can have, each once, and the scan path is the plain filter predicate (specific_objects_exact, "
+    "specific_services_exact, scan_objects_exact, matches_object_is_filter_semantics); only tagged events and the end marker follow a "
+    "start (current_msgs_tagged); a new event goes untagged, once per connection, to exactly the connections owning a started matching "
+    "listener (new_event_once_per_connection, not_started_matches_nothing). That the cookie and uuid views of the registry read by the two "
+    "paths agree is decided by the correspondence runs: partial there.", "DESIGN.md section 6 C10")
+CLAIMS["C11"] = _b(
+    "Machine-checked proofs (Lean 4) over a model in which every expect/unreachable!/debug_assert! of the broker is an explicit Panic "
+    "result: wrong-direction and too-new kinds only close the sender (wrong_direction_closes_sender, C12 gated_message_fails); for ALL "
+    "histories the operations handlers apply to stored channels and listeners cannot reach the 8 + 2 panic sites of channel.rs and "
+    "bus_listener.rs (channel_ops_do_not_panic, listener_enumeration_does_not_panic); unknown or foreign cookies/serials are ignored "
+    "without touching other state (unknown_*, foreign_listener_untouched). The remaining expect(\"inconsistent state\") sites are "
+    "cross-reference lookups whose unreachability is not proved; they are covered by the 'abuse' profile of the correspondence runs "
+    "(panics caught around every poll, the model names the site, liveness probe of every surviving connection): partial.",
+    "DESIGN.md section 6 C11")
+CLAIMS["C12"] = _b(
+    "Machine-checked proofs (Lean 4): the handshake decision for all requested versions (handshake_spec, handshake_incompatible; accept "
+    "range regenerated from acceptor.rs and its control-flow shape checked by the translator); every message kind newer than the "
+    "negotiated version does nothing but fail, which queues exactly the sender for removal (gated_message_fails over all 11 gated kinds "
+    "with gates regenerated from broker.rs, failed_handler_queues_removal); forwarding picks CallFunction2 only for 1.19+ callees, "
+    "forwards aborts only to 1.16+ callees, forces subscribe_all off for pre-1.18 owners (call_downtranslation, abort_only_to_1_16, "
+    "subscribe_all_forced_off); payload interop for all version pairs 1.14..1.20 and all well-formed values (payload_interop, on top of "
+    "the C13 theorems). 'Never sends a kind newer than the receiver's version' is additionally an oracle on every message of every "
+    "correspondence run; a global invariant over introspection registrations is not proved: partial there.", "DESIGN.md section 6 C12")
+
 NOT_APPLICABLE = {}
